@@ -149,6 +149,17 @@ pub fn c05_texts(seed: u64, n: usize) -> Vec<String> {
     out
 }
 
+/// resource-rich expressions (repeated patterns, case twins, many printers) in text form
+pub fn resource_texts(seed: u64, n: usize) -> Vec<String> {
+    let mut out = vec![];
+    for t in sample_values(seed, "corpus-resources", 0, n, &crate::checks::c11::chain_strategy(24)) {
+        if let Some(s) = render::canonical(&t) {
+            out.push(s);
+        }
+    }
+    out
+}
+
 /// formats of C14's directive-biased grammar
 pub fn format_texts(seed: u64, n: usize) -> Vec<String> {
     sample_values(seed, "corpus-fmt", 0, n, &c14::gen_format()).into_iter().filter(|s| !s.contains('\'')).map(|s| format!("-printf '{s}'")).collect()
@@ -171,6 +182,29 @@ pub fn nesting_texts() -> Vec<String> {
     out
 }
 
+/// long words whose multi-byte characters straddle power-of-two byte offsets (buffers, excerpts
+/// and truncation in error paths are typically cut there)
+pub fn long_word_texts() -> Vec<String> {
+    let mut out = vec![];
+    for t in [16usize, 32, 64, 128, 256, 512, 1024, 2048, 4000] {
+        for shift in 0..4usize {
+            for mb in ["é", "日", "😀"] {
+                if t < 8 + shift {
+                    continue;
+                }
+                let word = format!("{}{}{}", "a".repeat(t - 1 - shift), mb, "b".repeat(6));
+                for ctx in ["-{w}", "-true -{w}", "-type {w}", "-perm {w}", "-size {w}", "-uid {w}", "-name {w}", "-printf {w}", "-name {w} -bogus", "-name x -o {w}", "-fprint {w} -ls", "-xattr-match {w} {w}"] {
+                    let s = ctx.replace("{w}", &word);
+                    if within_bounds(&s) {
+                        out.push(s);
+                    }
+                }
+            }
+        }
+    }
+    out
+}
+
 /// The whole corpus, split in `nshards` deterministic slices; returns slice `shard`.
 pub fn texts(seed: u64, tier: Tier, shard: usize, nshards: usize) -> Vec<String> {
     let mut all: Vec<String> = vec![];
@@ -184,6 +218,7 @@ pub fn texts(seed: u64, tier: Tier, shard: usize, nshards: usize) -> Vec<String>
     }
     all.extend(gs);
     all.extend(c05_texts(seed.wrapping_add(shard as u64 * 104729), n_c05 / nshards + 1).into_iter().enumerate().filter(|(i, _)| i % 1 == 0).map(|(_, s)| s));
+    all.extend(resource_texts(seed.wrapping_add(shard as u64 * 32452843), tier.pick(3_000, 40_000) / nshards + 1));
     all.extend(format_texts(seed.wrapping_add(shard as u64 * 15485863), n_fmt / nshards + 1));
     // systematic parts are sliced
     let mut kws: Vec<(&str, c18::Lang)> = c18::ARG_KEYWORDS.iter().take(40).cloned().collect();
@@ -194,6 +229,11 @@ pub fn texts(seed: u64, tier: Tier, shard: usize, nshards: usize) -> Vec<String>
         }
     }
     for (i, t) in numeric_texts().into_iter().enumerate() {
+        if i % nshards == shard {
+            all.push(t);
+        }
+    }
+    for (i, t) in long_word_texts().into_iter().enumerate() {
         if i % nshards == shard {
             all.push(t);
         }
